@@ -78,7 +78,7 @@ def same(a, b):
 
 
 # ------------------------------------------------------------------ the property on the implementation
-def in_domain(spec, hp, v):
+def in_domain(spec, hp, v, exact=False):
     k = spec["kind"]
     if k.startswith("int"):
         if type(v) is not int:
@@ -97,7 +97,9 @@ def in_domain(spec, hp, v):
     if k.startswith("float"):
         if type(v) is not float:
             return "value %r has type %s, expected float" % (v, type(v).__name__)
-        tol = 1e-9 * max(1.0, abs(spec["lo"]), abs(spec["hi"]))
+        # what prob_to_value hands to a trial must lie in [min, max] exactly; the enumerated lattice of a stepped Float is
+        # the code's own 'on the lattice up to floating point error' (+1e-8 in _get_n_values) and is compared with a tolerance
+        tol = 0.0 if exact else 1e-9 * max(1.0, abs(spec["lo"]), abs(spec["hi"]))
         if not (spec["lo"] - tol <= v <= spec["hi"] + tol):
             return "value %r outside [%r, %r]" % (v, spec["lo"], spec["hi"])
         return None
@@ -133,7 +135,7 @@ def spec_hp(spec, hp, probs, seeds):
     k = spec["kind"]
     for p in probs:
         v = hp.prob_to_value(p)
-        m = in_domain(spec, hp, v)
+        m = in_domain(spec, hp, v, exact=True)
         if m:
             return "domain", "prob_to_value(%r) -> %s" % (p, m)
     for s in seeds:
@@ -172,6 +174,51 @@ def spec_hp(spec, hp, probs, seeds):
             elif not same(back, v):
                 return "roundtrip", "value %r maps to probability %r and back to %r" % (v, hp.value_to_prob(v), back)
     return None
+
+
+# ------------------------------------------------------------------ dense sweep of the range ends (libm-dependent paths)
+EDGE_PROBS = [0.0, 5e-324, 2.0 ** -53, 1e-9, 0.5, 1.0 - 1e-9, 1.0 - 2.0 ** -52, 1.0 - 2.0 ** -53]
+
+
+def sweep_edges(rng, n_int, n_float):
+    """log / reverse_log sampling goes through math.pow and math.log, where whether a range end is hit, missed by an ulp or
+    overshot depends on the particular (min, max, step): sweep many of them at probabilities next to 0 and 1."""
+    from keras_tuner.engine import hyperparameters as hpm
+    out = []; count = 0
+    pairs = [(lo, hi) for lo in range(1, 41) for hi in range(lo, lo + 101)]
+    rng.shuffle(pairs)
+    for lo, hi in pairs[:n_int]:
+        for smp in ("log", "reverse_log", "linear"):
+            for step in ((None, 2, 3) if smp != "linear" else (None, 3)):
+                try:
+                    hp = hpm.Int("x", lo, hi, step=step, sampling=smp)
+                except ValueError:
+                    continue
+                spec = dict(kind={"log": "int_log", "reverse_log": "int_rlog", "linear": "int_lin"}[smp], lo=lo, hi=hi, step=step)
+                for p in EDGE_PROBS:
+                    count += 1
+                    m = in_domain(spec, hp, hp.prob_to_value(p), exact=True)
+                    if m:
+                        out.append((spec, p, m)); break
+    for _ in range(n_float):
+        lo = rng.choice([1e-4, 1e-3, 0.5, 1.0, 2.0, 3.0, 0.1, 7.0, -1.0, -2.5, 0.0, rng.uniform(0.001, 10)])
+        for smp in ("linear", "log", "reverse_log"):
+            if smp != "linear" and lo <= 0:
+                continue
+            hi = lo * rng.choice([1.0, 10.0, 100.0, 1e4, rng.uniform(1, 50)]) if lo > 0 else lo + rng.choice([0.5, 1.0, 3.3, 10.0])
+            for step in (None, rng.choice([0.1, 0.25, 0.3, 1.0]) if smp == "linear" else rng.choice([2, 3, 10, 1.5])):
+                try:
+                    hp = hpm.Float("x", lo, hi, step=step, sampling=smp)
+                except ValueError:
+                    continue
+                kind = ("float_lin" if step is None else "float_lin_step") if smp == "linear" else ("float_log_step" if step is not None else ("float_log" if smp == "log" else "float_rlog"))
+                spec = dict(kind=kind, lo=lo, hi=hi, step=step, sampling=smp)
+                for p in EDGE_PROBS:
+                    count += 1
+                    m = in_domain(spec, hp, hp.prob_to_value(p), exact=True)
+                    if m:
+                        out.append((spec, p, m)); break
+    return out, count
 
 
 # ------------------------------------------------------------------ Coq cases (Int linear, Choice, Boolean)
@@ -249,6 +296,15 @@ def run(ctx):
         if key not in seen:
             distinct += 1
         seen.add(key)
+    bad_edges, n_edges = sweep_edges(rng, ctx.n(1500, 4040), ctx.n(1500, 20000))
+    stats["edge_sweep_calls"] = n_edges
+    seen_sig = set()
+    for spec, p, m in bad_edges:
+        sig = "C14/domain/%s" % spec["kind"]
+        if sig not in seen_sig:
+            seen_sig.add(sig)
+            failures.append(Failure("violation", sig, "%r: prob_to_value(%r) -> %s (%d such definitions in the sweep of range ends)" % (
+                spec, p, m, sum(1 for x in bad_edges if x[0]["kind"] == spec["kind"])), {"hp": spec, "prob": p}))
     verdicts, errors, wall = runcoq.run_cases(ctx.workdir, HEADER, terms, FOOTER, chunk=60)
     for path, rc, err in errors:
         failures.append(Failure("harness", "C14/coqc", "coqc failed on %s: %s" % (path, err[-300:]), {"correspondence": "C14", "file": path}))
@@ -263,7 +319,8 @@ def run(ctx):
     return dict(evaluations=n, distinct_nontrivial=distinct, traces_validated=len(terms) - ndiff,
                 rule="hyperparameters of all five kinds (Int/Float x linear/log/reverse_log x step or none, negative/zero/fractional bounds, min == max; Choice of "
                      "1-9 str/int/float/bool; Boolean; Fixed); per hp ~20 probabilities incl. 0, 1-2^-53, bucket boundaries k/n +- 1 ulp, bucket centres, "
-                     "denormals; domain membership, determinism of random_sample(seed), lattice enumeration and round trip on every domain value; the binary64 model is "
+                     "denormals; plus a sweep of Int (min,max) pairs in 1..40 x +0..100 and random Float ranges, all samplings, with and without step, at 8 probabilities next to 0 and 1 "
+                     "(exact bounds); domain membership, determinism of random_sample(seed), lattice enumeration and round trip on every domain value; the binary64 model is "
                      "compared bit for bit on Int-linear, Choice and Boolean; distinct = distinct hyperparameter definition",
                 samples=[specs[0], specs[1], specs[2]], failures=failures, stats=stats)
 
